@@ -11,11 +11,11 @@ TRUST = ("Apply mirrors baseapp's per-message branch/commit; cosmos-sdk store/IA
 # id -> (built?, category, technique, text, design_ref, extra note)
 CHECKS = {
  "C01": (True, "model_checking", "exhaustive enumeration of adversarial attestation sequences x attester configurations against an independent reference verifier",
-         "For every enabled set, key spelling and threshold, ALL sequences of up to T+1 atoms (honest, legacy-v, high-s twin, other-message, unknown key, zero, bad v, truncated, padded) are verified by the exported "
-         "verifier and by a reference reading using different recovery code; results must agree (soundness and completeness). Every configuration is also reached by transactions and exercised through receive and replace.", "5 C01", ""),
+         "For every enabled set, key spelling and threshold, ALL sequences of up to T atoms, and the over-long ones with one reduced end, over (honest, legacy-v, high-s twin, other-message, mirror key n-d, unknown key, zero, bad v, truncated, padded) are verified by the exported "
+         "verifier and by a reference reading using different recovery code; results must agree (soundness and completeness). Every configuration is also reached by transactions and exercised through receive and replace; a key enabled and disabled again (under other spellings too) must not count.", "5 C01", ""),
  "C02": (True, "model_checking", "explicit-state BFS to closure of the used-nonce lattice + exhaustive ordered-pair key grid",
          "All used-nonce sets over a small (domain, nonce) universe are reached by real receives with differing bodies, attestation encodings, callers and submitters, interleaved with pausing, attester rotation, re-linking, messenger removal and the chain advancing a million blocks; "
-         "a second receive for a used pair must fail; single query, paginated list and export must equal the history in every state; every privileged transaction type is probed not to change the set; key injectivity over a boundary grid by behaviour; plus all 2-3 step sequences without restore.", "5 C02", ""),
+         "a second receive for a used pair must fail; single query, paginated list and export must equal the history in every state; every privileged transaction type is probed not to change the set; key injectivity over a boundary grid by behaviour; genesis-listed pairs (every subset x absent optional scalars) are reported used and refused; plus all 2-3 step sequences without restore.", "5 C02", ""),
  "C03": (True, "model_checking", "exhaustive product enumeration of acceptance-condition vectors over the real receive handler",
          "Every combination of acceptance-condition values (configuration built by real admin transactions x message fields) is submitted to the real "
          "handler on real bank/fiattokenfactory keepers; success must equal the conjunction computed by the reference model, rejected receives must leave all four stores byte-identical.",
@@ -36,11 +36,11 @@ CHECKS = {
          "Every combination of configuration (limit, flags, max body, denom spelling, burn-side state) and request (amount boundaries, token, recipient, caller, depositor, destination) "
          "is executed; success iff the documented conjunction, with 'can pay'/'burn succeeds' answered by a dry run on the real ledger.", "5 C08", ""),
  "C09": (True, "model_checking", "exhaustive product enumeration of originals x new fields x configurations",
-         "Thirteen kinds of original (own, foreign, unattested, rotated, deposits, imitations, replacements of replacements) x both replacement types x new-field shapes x pause flags x attester rotation: "
+         "Thirteen kinds of original (own, foreign, unattested, rotated, deposits, imitations, replacements of replacements) x both replacement types x new-field shapes x pause flags x attester rotation (judged by the history of successful enable/disable transactions) x four submitters incl. prefix-sharing short accounts: "
          "success only under the stated conditions; the emitted replacement equals the original outside the allowed fields; raw four-store diff empty.", "5 C09", ""),
  "C10": (True, "model_checking", "explicit-state BFS over role assignments + exhaustive probes of every privileged transaction by every submitter",
          "All assignments of the four roles and the pending slot over the account universe are reached by real role transactions; in each, all 18 privileged "
-         "transaction types are submitted by every account; effect iff the submitter holds the matching role, otherwise byte-identical state.", "5 C10", ""),
+         "transaction types are submitted by every account and by accounts whose addresses merely share bytes with a holder; effect iff the submitter holds the matching role, otherwise byte-identical state.", "5 C10", ""),
  "C11": (True, "model_checking", "explicit-state BFS to closure in lockstep with the lifecycle automaton",
          "The closed set of role states is explored with every role-update/accept transaction (valid and invalid new holders) by every submitter and compared with the "
          "two-step ownership automaton in every state; every unrelated transaction type is probed not to move any role.", "5 C11", ""),
@@ -69,9 +69,9 @@ CHECKS = {
          "the same bodies run free on 16 goroutines under the race detector (one shared cctp keeper, per-instance dependencies).", "5 C18",
          "Map-iteration/time/rand nondeterminism is covered only by repeated runs (randomised differential) and an informational AST scan; races wholly inside dependencies are counted, not reported."),
  "C19": (True, "model_checking", "per-registry BFS to closure + combined BFS, every query compared with reference maps after every transition",
-         "All contents of each registry over small colliding key universes are reached by real transactions; after every transition every single-item query for every key, every list query for every page size in key and offset mode with totals, and all scalar queries are compared with reference maps.", "5 C19", ""),
+         "All contents of each registry over small colliding key universes are reached by real transactions; after every transition every single-item query for every key, every list query for every page size in key and offset mode with totals, and all scalar queries are compared with reference maps; a scalar or role a successful transaction has just set must be what its query returns.", "5 C19", ""),
  "C20": (True, "model_checking", "exhaustive product of per-field nasty domains per message type, decoded from wire bytes, under recover()",
-         "Every combination of field shapes (absent, empty, malformed, oversized, non-ASCII, boundary integers) for all 25 transaction types in four reachable states, all 19 queries with nil/extreme requests, "
+         "Every combination of field shapes (absent, empty, malformed, oversized, non-ASCII, boundary integers) for all 25 transaction types in six reachable states, all 19 queries with nil/extreme requests, "
          "the decoders and verifier over all lengths 0..300, and the CLI address parser over all short strings: none may panic.", "5 C20",
          "Uses the verif hook exporting the CLI parser."),
 }
